@@ -398,3 +398,18 @@ def run(ctx: Ctx):
     r_material_props(ctx, model, I)
     n = r_factor(ctx, model, I, t, o)
     ctx.floor("abstract converter calls", n, 1500)
+
+
+META = {
+    "technique": "abstract interpretation of the converters over unit labels with exact symbolic monomials, "
+                 "compared with a physical-unit oracle; SI table lint",
+    "level_text": "Static: every (from,to) pair of modes/bases (thorough: every concrete unit name) of c_pressure, "
+                  "c_loading, c_material, c_temperature, c_unit is abstractly interpreted end-to-end through the "
+                  "Adsorbate getters down to CoolProp reads; the derived factor must equal unit(from)/unit(to) of an "
+                  "oracle written over SI/CoolProp atoms (a quotient of a potential, so identity, there-and-back and "
+                  "via-intermediate follow for all pairs and triples), refusals must be ParameterError, the value "
+                  "must be used elementwise, and the unit tables must equal SI definitions. This covers all "
+                  "representation pairs rather than the 43 pairs at value 1 the tests sample.",
+    "level_note": "Trusted: CoolProp returns SI and rhomass = rhomolar*M; numpy/pandas broadcast scalars elementwise. "
+                  "Not decided: numeric values of p_sat/densities/M, float rounding.",
+}
